@@ -32,6 +32,8 @@ package generator
 //@   ensures [C12:one-trace-binding-per-atom] exists q []string :: len(q) == len(branch.Branch) && (forall j int :: 0 <= j && j < len(q) ==> q[j] == "_result_" + itoa(j)) && result[len(result) - 1] == "  " + matchesVariable + " := error(" + jsonQuote(name) + "," + mappingVariable + ", message ,[" + strJoin(q, ",") + "])"
 //@   loop 1 /* for i, r := range branch.Branch */
 //@     invariant [C12] len(resultBindings) == #i && (forall j int :: 0 <= j && j < #i ==> resultBindings[j] == "_result_" + itoa(j))
+//@   loop 3 /* for varIdx, compactPath := range message.Variables */
+//@     invariant [C13:one-argument-per-placeholder] len(vars) == #i && (forall j int :: 0 <= j && j < #i ==> vars[j] == "msg_var_" + itoa(j))
 
 //@ func regexLiteral(pattern string) string
 //@   ensures [C13:raw-or-quoted] (contains(pattern, "`") ==> result == jsonQuote(pattern)) && (!contains(pattern, "`") ==> result == "`" + pattern + "`")
@@ -40,7 +42,8 @@ package generator
 
 // every listed rule is generated under each level that lists it: violations, then warnings, then infos, nothing dropped or merged
 //@ func ruleSet(prof profile.Profile) []profile.Rule
-//@   ensures [C03,C12:every-listing-of-every-level] result == concat(concat(prof.Violation, prof.Warning), prof.Info)
+//@   verify [C07]
+//@   ensures [C03,C12:every-listing-of-every-level,C07] result == concat(concat(prof.Violation, prof.Warning), prof.Info)
 //@   loop 1 /* for _, r := range prof.Violation */
 //@     invariant [C03] acc == take(prof.Violation, #i)
 //@   loop 2 /* for _, r := range prof.Warning */
@@ -159,10 +162,11 @@ package generator
 //@     invariant [C01] anyFails(branches) == (!allHold(take(and.Body, #i@1)) || anyFailsG(take(results, #i))) && ((#i@1 >= 1 || #i >= 1) ==> len(branches) >= 1)
 
 //@ func collectAllResults(or profile.OrRule, iriExpander *misc.IriExpander) [][]GeneratedRegoResult
+//@   verify [C15]
 //@   requires [C01:operands] allOk(or.Body)
-//@   ensures [C01:operand-views] len(result) == len(or.Body) && (allSimplesFail(result) && allOpBranchOk(result)) == !anyHold(or.Body)
+//@   ensures [C01:operand-views,C15] len(result) == len(or.Body) && (allSimplesFail(result) && allOpBranchOk(result)) == !anyHold(or.Body)
 //@   loop 1 /* for i, r := range or.Body */
-//@     invariant [C01] len(acc) == len(or.Body) && (allSimplesFail(take(acc, #i)) && allOpBranchOk(take(acc, #i))) == !anyHold(take(or.Body, #i))
+//@     invariant [C01,C15] len(acc) == len(or.Body) && (allSimplesFail(take(acc, #i)) && allOpBranchOk(take(acc, #i))) == !anyHold(take(or.Body, #i))
 
 //@ func filterSimpleResults(rego [][]GeneratedRegoResult) []SimpleRegoResult
 //@   ensures [C01:all-simples] allFail(result) == allSimplesFail(rego)
